@@ -90,11 +90,15 @@ class Protocol(Component):
         # FIXME: the encoding of values is hardcoded to UTF-8.
         # at least protect against DoS attempts causing UnicodeDecodeError
 
-        if '"value":' in packet:  # FIXME: this can also be part of a call-value
-            self.__process_packet_value(packet)
+        try:
+            is_call = 'name' in json.loads(packet)
+        except (TypeError, ValueError):
+            return
 
-        else:
+        if is_call:
             self.__process_packet_call(packet)
+        else:
+            self.__process_packet_value(packet)
 
     def __process_packet_call(self, packet):
         try:
